@@ -7,6 +7,7 @@ SUB = PKT('Sub', [('x', I(1)), ('y', D(F('x')))])
 PT = PKT('Pt', [('x', I(1)), ('y', I(1, default=2))])
 VEC = PKT('Vec', [('h', I(1)), ('v', pos(D(C(1)), 'at', C(2)))])
 BAG = PKT('Bag', [('num', I(1)), ('objs', S(I(1), F('num')))])
+PTO = PKT('Pto', [('x', I(1)), ('o', O(I(1), F('x'), default=7)), ('l', S(I(1), C(1), default=[4]))])
 
 
 def _sel_table():
@@ -61,6 +62,7 @@ def components():
     add('r2i', lambda i: [('s%d' % i, R(PT, 'inst', {'x': 1}))])
     add('r2v', lambda i: [('s%d' % i, dict(R(PT, 'var', {'x': 1}), var='proto%d' % i))])
     add('rbv', lambda i: [('s%d' % i, dict(R(BAG, 'var', {'num': 1, 'objs': [5]}), var='protob%d' % i))])
+    add('rpto', lambda i: [('s%d' % i, R(PTO, 'inst', {'x': 1}))])
     add('rvec', lambda i: [('s%d' % i, R(VEC))])
     add('rbag', lambda i: [('s%d' % i, R(BAG))])
     add('rs', lambda i: [('t%d' % i, I(1)), ('u%d' % i, RS(F('t%d' % i), _sel_table(), 0))])
@@ -145,6 +147,21 @@ def components():
 
 COMPONENTS = components()
 
+
+def extras():
+    """components that only explicit specs name (not part of the pairwise enumeration): integers of every width in every
+    byte-order spelling"""
+    c = {}
+    for n in (1, 2, 3, 4, 5, 8, 9):
+        for e in (None, 'big', 'little', 'network', 'local'):
+            for sg in (False, True):
+                c['x%d%s%s' % (n, (e or 'def')[:3], 's' if sg else 'u')] = (
+                    (lambda i, n=n, e=e, sg=sg: [('a%d' % i, I(n, signed=sg, end=e))]), set())
+    return c
+
+
+EXTRA = extras()
+
 # one representative per mechanism, used for pairs in the quick tier and triples in the thorough tier
 REDUCED = ['i1', 'i2l', 'i3', 'dn', 'dx', 'm0', 'mab', 'rx', 'rxlb', 'b35', 'r1', 'rs', 'rst', 'sn', 'ss', 'su', 'suo', 'sua', 'sw', 'sa', 'sr', 'o1', 'os', 'or',
            'p_at3', 'p_atn', 'p_shm1', 'p_shm2d', 'p_al2', 'p_al3', 'p_al4i', 'p_em4', 'p_d0', 'eos']
@@ -153,7 +170,7 @@ REDUCED = ['i1', 'i2l', 'i3', 'dn', 'dx', 'm0', 'mab', 'rx', 'rxlb', 'b35', 'r1'
 def make_decl(names, opts=None, wrapper='a', name='K'):
     fields = []
     for i, cn in enumerate(names):
-        fields.extend(COMPONENTS[cn][0](i))
+        fields.extend((COMPONENTS.get(cn) or EXTRA[cn])[0](i))
     K = PKT(name, fields, **(opts or {}))
     if wrapper == 'a':
         return K
@@ -161,6 +178,10 @@ def make_decl(names, opts=None, wrapper='a', name='K'):
         return PKT('W', [('pre', I(1)), ('body', R(K))])
     if wrapper == 'c':
         return PKT('W', [('c', I(1)), ('items', S(R(K), F('c')))])
+    if wrapper == 'd':
+        # three levels: the packet inside an optional reference inside a packet that is repeated inside a packet
+        M = PKT('M', [('t', I(1)), ('inner', O(R(K), F('t'))), ('tail', I(1))])
+        return PKT('W', [('c', I(1)), ('items', S(R(M), F('c'))), ('end', I(1))])
     raise ValueError(wrapper)
 
 
